@@ -3,6 +3,10 @@
 
 package tengo
 
+import "github.com/d5/tengo/v2/parser"
+
 func verifProbe(v *VM) {}
 
 func verifKeepDead() bool { return false }
+
+func verifOptInput(c *Compiler, node parser.Node) {}
